@@ -868,6 +868,12 @@ class Group(System):
             # connect the variables src and tgt
             graph.add_edge(src, tgt)
 
+        # the residuals of an implicit component depend on its own outputs, so every output of an
+        # implicit component is also upstream of that component (its states are coupled).
+        for subsys in self.system_iter(recurse=True, typ=ImplicitComponent):
+            for vname in subsys._var_abs2meta['output']:
+                graph.add_edge(vname, subsys.pathname)
+
         return graph
 
     def _check_alias_overlaps(self, responses):
